@@ -79,6 +79,18 @@ Theorem C17_strings_comments_verbatim : forall (f : nat) (sl : slist) (r : list 
      = bind (conv_loop f sl r) (fun o => Ok ([47; 42] ++ body ++ [42; 47] ++ o))).
 Proof. exact verbatim_all. Qed.
 
+(* Unterminated strings and comments (the terminator occurs nowhere): everything up to the end of the
+   text is copied and the terminator - a line break for // - is appended (exact behaviour; such text
+   is outside the identity theorem). *)
+Theorem C17_unterminated : forall (f : nat) (sl : slist) (body : list Z), list_ok sl ->
+  (occursb [34; 125] ([123; 34] ++ body) = false -> (length ([123; 34] ++ body)%Z < f)%nat ->
+     conv_loop f sl ([123; 34] ++ body) = Ok ([123; 34] ++ body ++ [34; 125])) /\
+  (~ In 10 body -> (length ([47; 47] ++ body)%Z < f)%nat ->
+     conv_loop f sl ([47; 47] ++ body) = Ok ([47; 47] ++ body ++ [10])) /\
+  (occursb [42; 47] ([47; 42] ++ body) = false -> (length ([47; 42] ++ body)%Z < f)%nat ->
+     conv_loop f sl ([47; 42] ++ body) = Ok ([47; 42] ++ body ++ [42; 47])).
+Proof. exact conv_unterminated. Qed.
+
 (* ... but the '#' line-comment forms of the lexer are not protected: "c # ド" becomes "c # c"
    (known finding C17-hash-comment-text). *)
 Theorem C17_hash_comment_refuted :
@@ -161,6 +173,7 @@ Print Assumptions C17_zen2han_is_width_map.
 Print Assumptions C17_table_no_ascii.
 Print Assumptions C17_ascii_identity.
 Print Assumptions C17_strings_comments_verbatim.
+Print Assumptions C17_unterminated.
 Print Assumptions C17_hash_comment_refuted.
 Print Assumptions C17_user_defs.
 Print Assumptions C17_homomorphism_general.
